@@ -1,3 +1,4 @@
 SPECIFICATION Spec
+CONSTANT Ops = {}
 POSTCONDITION Accepted
 CHECK_DEADLOCK FALSE
